@@ -42,10 +42,23 @@ pub fn emit_struct(r#struct: &StructInner) -> String {
     )
 }
 
+/// The literal of a constant as Java source: a literal with a fraction or an exponent is a
+/// `double` in Java, so a `float` constant needs the `f` suffix.
+pub fn const_literal(r#const: &Const) -> String {
+    let mut value = r#const.value.clone();
+    if matches!(r#const.r#type, idlc_mir::Primitive::Float32)
+        && !value.contains(['x', 'X'])
+        && value.contains(['.', 'e', 'E'])
+    {
+        value.push('f');
+    }
+    value
+}
+
 pub fn emit_const(r#const: &Const) -> String {
     let ident = r#const.ident.to_string(); // Const ident should be uppercase, but leave it for now for backward compatibility.
     let ty = change_primitive(r#const.r#type);
-    let value = &r#const.value;
+    let value = const_literal(r#const);
 
     format!(
         r#"{ty} {ident} = {value};
